@@ -53,6 +53,7 @@ def scalarEq : Ty → Ty → Bool
   | .ref a, .ref b => scalarEq a b
   | .tuple as, .tuple bs => scalarEqs as bs
   | .array l a, .array l' b => l == l' && decide (1 ≤ l) && decide (l ≤ 100000000) && scalarEq a b
+  | .func as r, .func bs r' => scalarEqs as bs && scalarEq r r'
   | _, _ => false
 def scalarEqs : List Ty → List Ty → Bool
   | [], [] => true
@@ -69,6 +70,7 @@ def flatTy : Ty → Bool
   | .ref e => flatTy e
   | .tuple ts => flatTys ts
   | .array len e => decide (1 ≤ len) && decide (len ≤ 100000000) && flatTy e
+  | .func ps r => flatTys ps && flatTy r
   | t => scalarTy t
 def flatTys : List Ty → Bool
   | [] => true
@@ -84,6 +86,7 @@ def valTyS (S E : List String) : Ty → Bool
   | .ref e => valTyS S E e
   | .tuple ts => valTysS S E ts
   | .array len e => decide (1 ≤ len) && decide (len ≤ 100000000) && valTyS S E e
+  | .func ps r => valTysS S E ps && valTyS S E r
   | t => scalarTy t
 def valTysS (S E : List String) : List Ty → Bool
   | [] => true
@@ -222,8 +225,49 @@ def variantOf (env : Env) (ty : Ty) (idx : Nat) : Option (String × String × Li
     else none
   | _ => none
 
-def immOK (env : Env) (Γ : Ctx) : Imm → Bool
-  | .var x ty => (match lookupTy Γ x with | some t => scalarEq t ty | none => false)
+/-- the builtins of stage (a): parameter types and result type -/
+def builtinSig : String → Option (List Ty × Ty)
+  | "unit_to_string" => some ([.unit], .string)
+  | "bool_to_string" => some ([.bool], .string)
+  | "int8_to_string" => some ([.int 8 true], .string)
+  | "int16_to_string" => some ([.int 16 true], .string)
+  | "int32_to_string" => some ([.int 32 true], .string)
+  | "int64_to_string" => some ([.int 64 true], .string)
+  | "uint8_to_string" => some ([.int 8 false], .string)
+  | "uint16_to_string" => some ([.int 16 false], .string)
+  | "uint32_to_string" => some ([.int 32 false], .string)
+  | "uint64_to_string" => some ([.int 64 false], .string)
+  | "string_print" => some ([.string], .unit)
+  | "string_println" => some ([.string], .unit)
+  | _ => none
+
+def builtinNames : List String :=
+  ["unit_to_string", "bool_to_string", "int8_to_string", "int16_to_string", "int32_to_string", "int64_to_string",
+   "uint8_to_string", "uint16_to_string", "uint32_to_string", "uint64_to_string", "string_print", "string_println"]
+
+/-- callee names `compile_cexpr` treats specially (array / ref / vec helpers, `missing`) -/
+def specialCallees : List String :=
+  ["array_get", "array_set", "ref", "ref_get", "ref_set", "vec_new", "vec_push", "vec_get", "vec_len", "missing"]
+
+/-- the functions that may be used as values and called through a variable: the non-entry functions of `G`
+    (whose name the renaming leaves alone) and the printing builtins, with their signatures -/
+def fnSigs (file : AFile) (G : List String) : List (String × List Ty × Ty) :=
+  ((file.filter fun f => G.contains f.name && !isEntry f.name && rn f.name == f.name).map
+    fun f => (f.name, f.params.map (·.2), f.ret)) ++
+  builtinNames.filterMap fun b => (builtinSig b).map fun sg => (b, sg.1, sg.2)
+
+/-- a top-level function name used as a value at its own signature -/
+def fnValOK (env : Env) (file : AFile) (G : List String) (x : String) (ty : Ty) : Bool :=
+  match ty with
+  | .func ps r =>
+    !specialCallees.contains x && (env.getExternFn x).isNone &&
+    (match (fnSigs file G).find? (·.1 == x) with
+     | some e => scalarEqs e.2.1 ps && scalarEq e.2.2 r
+     | none => false)
+  | _ => false
+
+def immOK (env : Env) (file : AFile) (G : List String) (Γ : Ctx) : Imm → Bool
+  | .var x ty => (match lookupTy Γ x with | some t => scalarEq t ty | none => fnValOK env file G x ty)
   | .prim p ty => okPrim p ty
   | .tag idx ty => (match variantOf env ty idx with | some v => v.2.2.isEmpty | none => false)
 
@@ -264,33 +308,9 @@ def unOK (op : UnOp) (te ty : Ty) : Bool :=
   | .neg => intTy te && scalarEq ty te
   | .not => scalarEq te .bool && scalarEq ty .bool
 
-/-- the builtins of stage (a): parameter types and result type -/
-def builtinSig : String → Option (List Ty × Ty)
-  | "unit_to_string" => some ([.unit], .string)
-  | "bool_to_string" => some ([.bool], .string)
-  | "int8_to_string" => some ([.int 8 true], .string)
-  | "int16_to_string" => some ([.int 16 true], .string)
-  | "int32_to_string" => some ([.int 32 true], .string)
-  | "int64_to_string" => some ([.int 64 true], .string)
-  | "uint8_to_string" => some ([.int 8 false], .string)
-  | "uint16_to_string" => some ([.int 16 false], .string)
-  | "uint32_to_string" => some ([.int 32 false], .string)
-  | "uint64_to_string" => some ([.int 64 false], .string)
-  | "string_print" => some ([.string], .unit)
-  | "string_println" => some ([.string], .unit)
-  | _ => none
-
-def builtinNames : List String :=
-  ["unit_to_string", "bool_to_string", "int8_to_string", "int16_to_string", "int32_to_string", "int64_to_string",
-   "uint8_to_string", "uint16_to_string", "uint32_to_string", "uint64_to_string", "string_print", "string_println"]
-
-/-- callee names `compile_cexpr` treats specially (array / ref / vec helpers, `missing`) -/
-def specialCallees : List String :=
-  ["array_get", "array_set", "ref", "ref_get", "ref_set", "vec_new", "vec_push", "vec_get", "vec_len", "missing"]
-
-def argsOK (env : Env) (Γ : Ctx) : List Imm → List Ty → Bool
+def argsOK (env : Env) (file : AFile) (G : List String) (Γ : Ctx) : List Imm → List Ty → Bool
   | [], [] => true
-  | a :: as, t :: ts => immOK env Γ a && scalarEq a.ty t && argsOK env Γ as ts
+  | a :: as, t :: ts => immOK env file G Γ a && scalarEq a.ty t && argsOK env file G Γ as ts
   | _, _ => false
 
 /-- a call in the fragment: the callee is a name that is not a local, not a special helper, not an
@@ -302,10 +322,10 @@ def callOK (env : Env) (file : AFile) (G : List String) (Γ : Ctx) (f : Imm) (ar
     (lookupTy Γ name).isNone && rn name == name && !specialCallees.contains name &&
     (env.getExternFn name).isNone && !isEntry name &&
     (match builtinSig name with
-     | some (ps, r) => builtinNames.contains name && argsOK env Γ args ps && scalarEq ty r
+     | some (ps, r) => builtinNames.contains name && argsOK env file G Γ args ps && scalarEq ty r
      | none =>
        match file.find? (·.name == name) with
-       | some g => G.contains name && argsOK env Γ args (g.params.map (·.2)) && scalarEq ty g.ret
+       | some g => G.contains name && argsOK env file G Γ args (g.params.map (·.2)) && scalarEq ty g.ret
        | none => false)
   | _ => false
 
@@ -322,20 +342,20 @@ def refTyOK (env : Env) (file : AFile) (t : Ty) : Bool :=
 
 /-- a call of a reference builtin at the types of the cell: `ref(v) : Ref[e]`, `ref_get(r) : e`,
     `ref_set(r, v) : unit` -/
-def refCallOK (env : Env) (file : AFile) (Γ : Ctx) (f : Imm) (args : List Imm) (ty : Ty) : Bool :=
+def refCallOK (env : Env) (file : AFile) (G : List String) (Γ : Ctx) (f : Imm) (args : List Imm) (ty : Ty) : Bool :=
   match f with
   | .var name _ =>
     (lookupTy Γ name).isNone && rn name == name &&
     (if name == "ref" then
        (match ty with
-        | .ref e => argsOK env Γ args [e] && refTyOK env file (.ref e)
+        | .ref e => argsOK env file G Γ args [e] && refTyOK env file (.ref e)
         | _ => false)
-     else if name == "ref_get" then argsOK env Γ args [.ref ty] && refTyOK env file (.ref ty)
+     else if name == "ref_get" then argsOK env file G Γ args [.ref ty] && refTyOK env file (.ref ty)
      else if name == "ref_set" then
        (match args with
         | r :: _ =>
           (match r.ty with
-           | .ref e => argsOK env Γ args [.ref e, e] && scalarEq ty .unit && refTyOK env file (.ref e)
+           | .ref e => argsOK env file G Γ args [.ref e, e] && scalarEq ty .unit && refTyOK env file (.ref e)
            | _ => false)
         | [] => false)
      else false)
@@ -349,7 +369,7 @@ def arrTyOK (env : Env) (file : AFile) (t : Ty) : Bool :=
   valTy env t && (collectRuntimeTypes file).arrays.any (Goml.Mono.tyBeq t)
 
 /-- a call of an array builtin: `array_get(a, i) : e`, `array_set(a, i, v) : [e; n]`, the index of any integer type -/
-def arrCallOK (env : Env) (file : AFile) (Γ : Ctx) (f : Imm) (args : List Imm) (ty : Ty) : Bool :=
+def arrCallOK (env : Env) (file : AFile) (G : List String) (Γ : Ctx) (f : Imm) (args : List Imm) (ty : Ty) : Bool :=
   match f with
   | .var name _ =>
     (lookupTy Γ name).isNone && rn name == name &&
@@ -358,10 +378,21 @@ def arrCallOK (env : Env) (file : AFile) (Γ : Ctx) (f : Imm) (args : List Imm) 
        (match a.ty with
         | .array len e =>
           intTy i.ty && arrTyOK env file (.array len e) &&
-          (if name == "array_get" then argsOK env Γ args [.array len e, i.ty] && scalarEq ty e
-           else if name == "array_set" then argsOK env Γ args [.array len e, i.ty, e] && scalarEq ty (.array len e)
+          (if name == "array_get" then argsOK env file G Γ args [.array len e, i.ty] && scalarEq ty e
+           else if name == "array_set" then argsOK env file G Γ args [.array len e, i.ty, e] && scalarEq ty (.array len e)
            else false)
         | _ => false)
+     | _ => false)
+  | _ => false
+
+/-- a call through a variable of function type (a function value held by a local) -/
+def localCallOK (env : Env) (file : AFile) (G : List String) (Γ : Ctx) (f : Imm) (args : List Imm) (ty : Ty) : Bool :=
+  match f with
+  | .var x fty =>
+    (match lookupTy Γ x with
+     | some (.func ps r) =>
+       scalarEq (.func ps r) fty && !specialCallees.contains (rn x) && (env.getExternFn (rn x)).isNone &&
+       argsOK env file G Γ args ps && scalarEq ty r
      | _ => false)
   | _ => false
 
@@ -386,22 +417,24 @@ def isSomeD : ADflt → Bool
 mutual
 /-- a `CExpr` of the fragment; its value has type `c.annTy` -/
 def fragC (env : Env) (file : AFile) (G : List String) (Γ : Ctx) (K : KCtx) : CExpr → Bool
-  | .imm i => immOK env Γ i
-  | .un op e ty => immOK env Γ e && unOK op e.ty ty
-  | .bin op l r ty => immOK env Γ l && immOK env Γ r && binOK op l.ty r.ty ty
-  | .call f args ty => callOK env file G Γ f args ty || refCallOK env file Γ f args ty || arrCallOK env file Γ f args ty
+  | .imm i => immOK env file G Γ i
+  | .un op e ty => immOK env file G Γ e && unOK op e.ty ty
+  | .bin op l r ty => immOK env file G Γ l && immOK env file G Γ r && binOK op l.ty r.ty ty
+  | .call f args ty =>
+    callOK env file G Γ f args ty || refCallOK env file G Γ f args ty || arrCallOK env file G Γ f args ty ||
+      localCallOK env file G Γ f args ty
   | .constr (.struct sn) args ty =>
     scalarEq ty (.struct sn) && (goodStructs env).contains sn &&
     (match env.getStruct sn with
-     | some d => argsOK env Γ args (d.fields.map (·.2))
+     | some d => argsOK env file G Γ args (d.fields.map (·.2))
      | none => false)
   | .constr (.enum tn _ vi) args ty =>
     scalarEq ty (.enum tn) &&
     (match variantOf env (.enum tn) vi with
-     | some v => argsOK env Γ args v.2.2
+     | some v => argsOK env file G Γ args v.2.2
      | none => false)
   | .cget e (.struct sn) idx ty =>
-    immOK env Γ e && scalarEq e.ty (.struct sn) &&
+    immOK env file G Γ e && scalarEq e.ty (.struct sn) &&
     (match cgetField env e (.struct sn) idx with
      | some ft => scalarEq ty ft.2
      | none => false)
@@ -410,31 +443,31 @@ def fragC (env : Env) (file : AFile) (G : List String) (Γ : Ctx) (K : KCtx) : C
     (match e with
      | .var x _ => lookupK K x == some vi
      | _ => false) &&
-    immOK env Γ e && scalarEq e.ty (.enum tn) &&
+    immOK env file G Γ e && scalarEq e.ty (.enum tn) &&
     (match variantOf env (.enum tn) vi with
      | some v => (match v.2.2[idx]? with | some t => scalarEq ty t | none => false)
      | none => false)
   | .tuple items ty =>
     (match ty with
-     | .tuple ts => argsOK env Γ items ts && tupleTyOK env file (.tuple ts)
+     | .tuple ts => argsOK env file G Γ items ts && tupleTyOK env file (.tuple ts)
      | _ => false)
   | .array items ty =>
     (match ty with
-     | .array len e => argsOK env Γ items (List.replicate len e) && valTy env (.array len e)
+     | .array len e => argsOK env file G Γ items (List.replicate len e) && valTy env (.array len e)
      | _ => false)
   | .proj e idx ty =>
-    immOK env Γ e &&
+    immOK env file G Γ e &&
     (match e.ty with
      | .tuple ts => valTy env (.tuple ts) && (fieldNames 0 ts.length).Nodup &&
          (match ts[idx]? with | some t => scalarEq ty t | none => false)
      | _ => false)
   | .ite c t e ty =>
-    immOK env Γ c && scalarEq c.ty .bool && fragA env file G Γ K t && fragA env file G Γ K e &&
+    immOK env file G Γ c && scalarEq c.ty .bool && fragA env file G Γ K t && fragA env file G Γ K e &&
     scalarEq (aTy t) ty && scalarEq (aTy e) ty
   | .while c b ty =>
     fragA env file G Γ K c && scalarEq (aTy c) .bool && fragA env file G Γ K b && scalarEq (aTy b) .unit && scalarEq ty .unit
   | .matchE s arms d ty =>
-    immOK env Γ s && flatTy ty &&
+    immOK env file G Γ s && flatTy ty &&
     (match s.ty with
      | .enum n =>
        (match s with
@@ -476,34 +509,36 @@ def aTy : AExpr → Ty
   | .letE _ _ b _ => aTy b
 end
 
-/-- the Go name a call goes to when the callee is a variable: the `ref` / `ref_get` / `ref_set` helper of the
-    type at hand, else the escaped name -/
-def goCallee (f : Imm) (args : List Imm) (ty : Ty) : List String :=
+/-- the Go name a call goes to when the callee is a variable that is not a local (`bs` = the source variables in
+    scope): the `ref` / `ref_get` / `ref_set` / `array_get` / `array_set` helper of the type at hand, else the escaped name -/
+def goCallee (bs : List String) (f : Imm) (args : List Imm) (ty : Ty) : List String :=
   match f with
   | .var x _ =>
-    if rn x == "ref" then [helperFnName "ref" ty]
+    if bs.contains x then []
+    else if rn x == "ref" then [helperFnName "ref" ty]
     else if rn x == "ref_get" || rn x == "ref_set" || rn x == "array_get" || rn x == "array_set" then
       [helperFnName (rn x) ((args.head?.map Imm.ty).getD (.tvar 0))]
     else [vn x]
   | _ => []
 
 mutual
-/-- Go names of the callees occurring in an expression -/
-def calleesC : CExpr → List String
-  | .call f args ty => goCallee f args ty
-  | .ite _ t e _ => calleesA t ++ calleesA e
-  | .while c b _ => calleesA c ++ calleesA b
-  | .matchE _ arms d _ => calleesArms arms ++ calleesD d
+/-- Go names of the top-level callees occurring in an expression (`bs` = the source variables in scope: a call through
+    a local is not a callee in this sense) -/
+def calleesC (bs : List String) : CExpr → List String
+  | .call f args ty => goCallee bs f args ty
+  | .ite _ t e _ => calleesA bs t ++ calleesA bs e
+  | .while c b _ => calleesA bs c ++ calleesA bs b
+  | .matchE _ arms d _ => calleesArms bs arms ++ calleesD bs d
   | _ => []
-def calleesA : AExpr → List String
-  | .ret c => calleesC c
-  | .letE _ v b _ => calleesC v ++ calleesA b
-def calleesArms : List AArm → List String
+def calleesA (bs : List String) : AExpr → List String
+  | .ret c => calleesC bs c
+  | .letE x v b _ => calleesC bs v ++ calleesA (x :: bs) b
+def calleesArms (bs : List String) : List AArm → List String
   | [] => []
-  | .mk _ b :: rest => calleesA b ++ calleesArms rest
-def calleesD : ADflt → List String
+  | .mk _ b :: rest => calleesA bs b ++ calleesArms bs rest
+def calleesD (bs : List String) : ADflt → List String
   | .none => []
-  | .some e => calleesA e
+  | .some e => calleesA bs e
 end
 
 def paramCtx (f : AFn) : Ctx := f.params.reverse
@@ -538,20 +573,146 @@ end
 def ndLocals (f : GFunc) : List String := f.params.map (·.1) ++ ndDecls f.body
 
 /-- the Go-side check of one function, on the model's own output for it -/
-def goLocalOK (env : Env) (st : St) (f : AFn) : Bool :=
+def goLocalOK (env : Env) (file : AFile) (G : List String) (st : St) (f : AFn) : Bool :=
   let gf := (compileFn env st f).1
   let locals := Goml.Dce.localsOf gf
   (ndLocals gf).Nodup && !locals.contains "_" &&
-  (calleesA f.body).all (fun c => !locals.contains c && c != "_")
+  (calleesA ((paramCtx f).map (·.1)) f.body).all (fun c => !locals.contains c && c != "_") &&
+  -- no local is spelled like a function that may be used as a value
+  (fnSigs file G).all (fun e => !locals.contains (vn e.1) && vn e.1 != "_")
+
+/-! ### Go constant expressions (finding C10)
+
+An operation all of whose operands are literals reaches Go as a *constant expression* (Go spec, "Constant expressions"):
+it is evaluated exactly, at arbitrary precision, and converted (rounded / range-checked) once, at compile time — `0.1 + 0.2`
+is `0.3`, `1.0 / 0.0`, `1 / 0` and `int8(127) + 1` are compile errors, there is no `-0.0`.  `Go.Sem` evaluates every
+operation at run time (IEEE / wrapping), so on such an operation the real Go and `Go.Sem` may differ.  `Model/GoConst.lean`
+is the evaluator of Go's constant rules (worker C10; corpus/C10/*const*).  `compile_preserves` does not claim these
+functions: the check below runs on the EMITTED function (that is what Go sees) and rejects every unary or binary operation or
+conversion whose operands are all constants (literals, or such operations over literals), and — conservatively — every block
+expression, EXCEPT the operations of `constOpOK`, where exact evaluation and the run-time operation provably coincide:
+`!` / `&&` / `||` / `==` / `!=` on boolean literals, `+` and the comparisons on string literals, the comparisons on two in-range
+integer literals of one type, and `+ - * /` / unary `-` on in-range integer literals of one type whose EXACT result is again
+in range (and whose divisor is not zero) — then Go's constant is that exact result and the wrapping run-time operation
+returns it too.  Everything on float literals is rejected.  (Bringing those back would need `GoConst.constEval` to agree with
+the IEEE operation; c10 proved `float_const_faithful_if_exact_operands` for one operator over exact texts, but `go_pprint`
+prints shortest-round-trip texts.) -/
+mutual
+/-- what Go treats as a constant: a boolean / integer / float / string literal, or an operation over constants -/
+def constG : GExpr → Bool
+  | .bool _ | .int _ _ | .float _ _ | .str _ => true
+  | .un _ _ e => constG e
+  | .bin _ _ l r => constG l && constG r
+  | .cast _ e => constG e
+  | _ => false
+end
+
+/-- value, width and signedness of an in-range integer literal of the emitted Go -/
+def intLitG : GExpr → Option (Int × Nat × Bool)
+  | .int text (.int b sg) =>
+    (match text.toInt? with
+     | some v => if Sem.wrap b sg v == v then some (v, b, sg) else none
+     | none => none)
+  | _ => none
+
+def cmpG : GBin → Bool
+  | .less | .greater | .lessEq | .greaterEq | .eq | .notEq => true
+  | _ => false
+
+/-- a constant operation on which Go's compile-time evaluation (exact, then range-checked) and the run-time operation of
+    `Go.Sem` coincide -/
+def constOpOK : GExpr → Bool
+  | .un .not _ (.bool _) => true
+  | .un .neg _ e =>
+    (match intLitG e with
+     | some (v, b, sg) => Sem.wrap b sg (-v) == -v
+     | none => false)
+  | .bin op _ l r =>
+    (match l, r with
+     | .bool _, .bool _ => op == .and || op == .or || op == .eq || op == .notEq
+     | .str _, .str _ => op == .add || cmpG op
+     | _, _ =>
+       match intLitG l, intLitG r with
+       | some (a, b, sg), some (c, b', sg') =>
+         b == b' && sg == sg' &&
+         (match op with
+          | .add => Sem.wrap b sg (a + c) == a + c
+          | .sub => Sem.wrap b sg (a - c) == a - c
+          | .mul => Sem.wrap b sg (a * c) == a * c
+          | .div => c != 0 && Sem.wrap b sg (Int.tdiv a c) == Int.tdiv a c
+          | .and | .or => false
+          | _ => true)
+       | _, _ => false)
+  | _ => false
+
+mutual
+/-- no operation or conversion all of whose operands are constants, anywhere in the expression, other than those of
+    `constOpOK` -/
+def noConstE : GExpr → Bool
+  | .un op t e => (!constG e || constOpOK (.un op t e)) && noConstE e
+  | .bin op t l r => (!(constG l && constG r) || constOpOK (.bin op t l r)) && noConstE l && noConstE r
+  | .cast _ e => !constG e && noConstE e
+  | .field _ _ o => noConstE o
+  | .index _ a i => noConstE a && noConstE i
+  | .slit _ fs => noConstFields fs
+  | .alit _ es => noConstList es
+  | .call _ f args => noConstE f && noConstList args
+  | .blocke _ _ _ => false
+  | .var _ _ | .nil _ | .voidv _ | .unitv _ | .bool _ | .int _ _ | .float _ _ | .str _ => true
+def noConstList : List GExpr → Bool
+  | [] => true
+  | e :: es => noConstE e && noConstList es
+def noConstFields : List GField → Bool
+  | [] => true
+  | .mk _ e :: fs => noConstE e && noConstFields fs
+end
+
+def noConstOpt : Option GExpr → Bool
+  | some e => noConstE e
+  | none => true
+
+mutual
+def noConstStmts : List GStmt → Bool
+  | [] => true
+  | s :: rest => noConstStmt s && noConstStmts rest
+def noConstStmt : GStmt → Bool
+  | .expr e => noConstE e
+  | .go c => noConstE c
+  | .varDecl _ _ v => noConstOpt v
+  | .assign _ v => noConstE v
+  | .indexAssign a i v => noConstE a && noConstE i && noConstE v
+  | .ptrAssign p v => noConstE p && noConstE v
+  | .fieldAssign t v => noConstE t && noConstE v
+  | .ret e => noConstOpt e
+  | .ite c t e => noConstE c && noConstStmts t && (match e with | some b => noConstStmts b | none => true)
+  | .loop b => noConstStmts b
+  | .brk => true
+  | .switch e cs d => noConstE e && noConstCases cs && (match d with | some b => noConstStmts b | none => true)
+  | .tswitch _ e cs d => noConstE e && noConstTCases cs && (match d with | some b => noConstStmts b | none => true)
+def noConstCases : List GCase → Bool
+  | [] => true
+  | .mk v b :: rest => noConstE v && noConstStmts b && noConstCases rest
+def noConstTCases : List GTCase → Bool
+  | [] => true
+  | .mk _ b :: rest => noConstStmts b && noConstTCases rest
+end
+
+/-- **`noConstExpr`**: the function the back end emits for `f` contains no Go constant expression other than a bare literal -/
+def noConstExpr (env : Env) (st : St) (f : AFn) : Bool := noConstStmts (compileFn env st f).1.body
 
 def localOK (env : Env) (file : AFile) (G : List String) (st : St) (f : AFn) : Bool :=
-  srcLocalOK env file G f && goLocalOK env st f
+  srcLocalOK env file G f && goLocalOK env file G st f
+
+/-- what a member of a closed set must pass: the source-side and Go-side checks the simulation uses, and no Go constant
+    expression in the emitted function (where `Go.Sem` is not known to be faithful to Go) -/
+def memberOK (env : Env) (file : AFile) (G : List String) (st : St) (f : AFn) : Bool :=
+  localOK env file G st f && noConstExpr env st f
 
 /-- every function of `G` passes the local checks (counters threaded as in `compile_fn`) -/
 def checkFns (env : Env) (file : AFile) (G : List String) : St → List AFn → Bool
   | _, [] => true
   | st, f :: rest =>
-    (if G.contains f.name then localOK env file G st f else true) &&
+    (if G.contains f.name then memberOK env file G st f else true) &&
       checkFns env file G (compileFn env st f).2 rest
 
 /-- Go functions the runtime helpers of stage (a) call by name (`Go.Sem`'s builtin table gives them
@@ -579,7 +740,7 @@ def refine (env : Env) (file : AFile) (n : Nat) : Nat → List String → List S
     let rec keep (st : St) : List AFn → List String
       | [] => []
       | f :: rest =>
-        (if G.contains f.name && localOK env file G st f then [f.name] else []) ++ keep (compileFn env st f).2 rest
+        (if G.contains f.name && memberOK env file G st f then [f.name] else []) ++ keep (compileFn env st f).2 rest
     let G' := keep { n := n, ok := true } file
     if G'.length == G.length then G else refine env file n k G'
 
@@ -637,14 +798,14 @@ def tyClass : Ty → String
   | .dyn _ => "dyn" | .app _ _ => "generic-app" | .array _ _ => "array" | .vec _ => "vec" | .ref _ => "ref"
   | .func _ _ => "func" | .float _ => "float" | .param _ => "tparam" | .tvar _ => "tvar" | _ => "scalar-mismatch"
 
-def immReason (env : Env) (Γ : Ctx) : Imm → Option String
+def immReason (env : Env) (file : AFile) (G : List String) (Γ : Ctx) : Imm → Option String
   | .var x ty =>
     match lookupTy Γ x with
-    | none => some "operand:function-or-unbound-name-as-value"
+    | none => if fnValOK env file G x ty then none else some "operand:function-or-unbound-name-as-value"
     | some t => if scalarEq t ty then none else some ("type:" ++ tyClass ty)
   | .prim (.float _ _) _ => some "literal:float"
   | .prim p ty => if okPrim p ty then none else some "literal:annotation-or-range"
-  | .tag idx ty => if immOK env Γ (.tag idx ty) then none else some "operand:tag-of-non-admitted-enum"
+  | .tag idx ty => if immOK env file G Γ (.tag idx ty) then none else some "operand:tag-of-non-admitted-enum"
 
 def firstSome {α} (xs : List α) (f : α → Option String) : Option String := xs.findSome? f
 
@@ -677,13 +838,14 @@ def tyReason (env : Env) (t : Ty) : String :=
 
 mutual
 def reasonC (env : Env) (file : AFile) (G : List String) (Γ : Ctx) (K : KCtx) : CExpr → Option String
-  | .imm i => immReason env Γ i
-  | .un op e ty => (immReason env Γ e).orElse fun _ => if unOK op e.ty ty then none else some "operator:unary-type"
+  | .imm i => immReason env file G Γ i
+  | .un op e ty => (immReason env file G Γ e).orElse fun _ => if unOK op e.ty ty then none else some "operator:unary-type"
   | .bin op l r ty =>
-    ((immReason env Γ l).orElse fun _ => immReason env Γ r).orElse fun _ =>
+    ((immReason env file G Γ l).orElse fun _ => immReason env file G Γ r).orElse fun _ =>
       if binOK op l.ty r.ty ty then none else some "operator:binary-type"
   | .call f args ty =>
-    if callOK env file G Γ f args ty || refCallOK env file Γ f args ty || arrCallOK env file Γ f args ty then none
+    if callOK env file G Γ f args ty || refCallOK env file G Γ f args ty || arrCallOK env file G Γ f args ty ||
+        localCallOK env file G Γ f args ty then none
     else match f with
       | .var name _ =>
         if (lookupTy Γ name).isSome then some "call:through-a-local(closure/function value)"
@@ -692,11 +854,11 @@ def reasonC (env : Env) (file : AFile) (G : List String) (Γ : Ctx) (K : KCtx) :
         else if (builtinSig name).isSome then some "call:builtin-args"
         else match file.find? (·.name == name) with
           | some _ => if G.contains name then
-              ((firstSome args (immReason env Γ)).orElse fun _ => some "call:user-fn-args") else some "call:callee-outside-fragment"
+              ((firstSome args (immReason env file G Γ)).orElse fun _ => some "call:user-fn-args") else some "call:callee-outside-fragment"
           | none => some ("call:other-builtin:" ++ name)
       | _ => some "call:non-variable-callee"
   | .ite c t e ty =>
-    ((immReason env Γ c).orElse fun _ => reasonA env file G Γ K t).orElse fun _ =>
+    ((immReason env file G Γ c).orElse fun _ => reasonA env file G Γ K t).orElse fun _ =>
       (reasonA env file G Γ K e).orElse fun _ =>
         if scalarEq c.ty .bool && scalarEq (aTy t) ty && scalarEq (aTy e) ty then none else some "if:type"
   | .while c b ty =>
@@ -704,19 +866,19 @@ def reasonC (env : Env) (file : AFile) (G : List String) (Γ : Ctx) (K : KCtx) :
       if scalarEq (aTy c) .bool && scalarEq (aTy b) .unit && scalarEq ty .unit then none else some "while:type"
   | .constr (.enum tn vname vi) args ty =>
     if fragC env file G Γ K (.constr (.enum tn vname vi) args ty) then none
-    else (firstSome args (immReason env Γ)).orElse fun _ => some ("node:enum-constructor(" ++ tyReason env (.enum tn) ++ ")")
+    else (firstSome args (immReason env file G Γ)).orElse fun _ => some ("node:enum-constructor(" ++ tyReason env (.enum tn) ++ ")")
   | .constr (.struct n) args ty =>
     if fragC env file G Γ K (.constr (.struct n) args ty) then none
-    else (firstSome args (immReason env Γ)).orElse fun _ => some ("node:struct-constructor(" ++ tyReason env (.struct n) ++ ")")
+    else (firstSome args (immReason env file G Γ)).orElse fun _ => some ("node:struct-constructor(" ++ tyReason env (.struct n) ++ ")")
   | .tuple items ty =>
     if fragC env file G Γ K (.tuple items ty) then none
-    else (firstSome items (immReason env Γ)).orElse fun _ => some ("node:tuple(" ++ tyReason env ty ++ ")")
+    else (firstSome items (immReason env file G Γ)).orElse fun _ => some ("node:tuple(" ++ tyReason env ty ++ ")")
   | .array items ty =>
     if fragC env file G Γ K (.array items ty) then none
-    else (firstSome items (immReason env Γ)).orElse fun _ => some ("node:array(" ++ tyReason env ty ++ ")")
+    else (firstSome items (immReason env file G Γ)).orElse fun _ => some ("node:array(" ++ tyReason env ty ++ ")")
   | .matchE s arms d ty =>
     if fragC env file G Γ K (.matchE s arms d ty) then none
-    else (immReason env Γ s).orElse fun _ =>
+    else (immReason env file G Γ s).orElse fun _ =>
       match s.ty with
       | .enum n =>
         (match s with
@@ -731,7 +893,7 @@ def reasonC (env : Env) (file : AFile) (G : List String) (Γ : Ctx) (K : KCtx) :
         else ((reasonArms env file G Γ K none arms).orElse fun _ => reasonD env file G Γ K d).orElse fun _ => some "match:literal-arms"
   | .cget e c idx ty =>
     if fragC env file G Γ K (.cget e c idx ty) then none
-    else (immReason env Γ e).orElse fun _ =>
+    else (immReason env file G Γ e).orElse fun _ =>
       some (match c with
         | .struct _ => "node:field-get(" ++ tyClass ty ++ ")"
         | .enum tn _ _ =>
@@ -742,7 +904,7 @@ def reasonC (env : Env) (file : AFile) (G : List String) (Γ : Ctx) (K : KCtx) :
   | .go _ _ => some "node:go"
   | .proj e idx ty =>
     if fragC env file G Γ K (.proj e idx ty) then none
-    else (immReason env Γ e).orElse fun _ => some ("node:tuple-proj(" ++ tyReason env e.ty ++ ")")
+    else (immReason env file G Γ e).orElse fun _ => some ("node:tuple-proj(" ++ tyReason env e.ty ++ ")")
 def reasonA (env : Env) (file : AFile) (G : List String) (Γ : Ctx) (K : KCtx) : AExpr → Option String
   | .ret c => reasonC env file G Γ K c
   | .letE x v b _ => (reasonC env file G Γ K v).orElse fun _ => reasonA env file G ((x, v.annTy) :: Γ) (eraseK K x) b
@@ -769,7 +931,8 @@ def outsideReason (env : Env) (file : AFile) (n : Nat) (G : List String) (closed
     | some r => some r
     | none =>
       if !scalarEq (aTy f.body) f.ret then some "signature:result-type"
-      else if !goLocalOK env st f then some "go-names:declared-twice-or-captured"
+      else if !goLocalOK env file G st f then some "go-names:declared-twice-or-captured"
+      else if !noConstExpr env st f then some "go-const-expr:operation-on-literals-not-exact"
       else some "closure-check-failed"
 
 end Goml.GoFrag
